@@ -24,8 +24,11 @@ RATES = """RATES
  30 SAVE moles
  -end
 """
+SYS_ELTS = ["Na", "Ca", "Sr", "Mg", "K", "Cl", "C", "S", "N", "H", "O"]
+PUNCH = ("SELECTED_OUTPUT 1\n -reset false\n -high_precision true\nUSER_PUNCH 1\n -headings " + " ".join("sys_" + e for e in SYS_ELTS) +
+         "\n 10 PUNCH " + ", ".join('SYS("%s")' % e for e in SYS_ELTS) + "\n")
 INIT = {
-    "plain": RATES + """SOLUTION 1
+    "plain": RATES + PUNCH + """SOLUTION 1
  temp 25
  pH 7.5
  Na 10
@@ -69,6 +72,10 @@ ATTACH = {
     "ki:zero": ("ki", "KINETICS 1\n Zero\n -formula Na2SO4 1 H2O 10\n -m 0.002\n -parms 1e-6\n -tol 1e-8\n -steps 600\n"),
 }
 KIN_STEPS = {"ki:calcite": 2, "ki:zero": 1}
+# a second initial cell that already holds one reactant of every kind (definitions only - no step has been run)
+FULL = ["pp:calcite+co2", "ex:X-equil", "su:ddl-equil", "ga:fixV", "ss:ideal", "ki:calcite"]
+INIT["full"] = INIT["plain"] + "".join(ATTACH[o][1] for o in FULL) + "END\n"
+INIT_MODEL = {"plain": ((), None), "full": (tuple(ATTACH[o][0] for o in FULL), "ki:calcite")}
 
 REACTANTS = {            # name -> (stoichiometry lines, unit amount, units word)
     "NaCl": ([("NaCl", 1.0)], 1.0, "mmol"),
@@ -203,6 +210,34 @@ def judge(op, spec, before_blocks, after_blocks, db, problems, diags, tag):
     return inv0, inv1, exp, worst
 
 
+def sys_crosscheck(op, r, after_blocks, db, diags):
+    """Diagnostic only (R1): the engine's own system totals SYS("element") of the last step against the dump inventory
+    (SYS does not count kinetic reactants; with a diffuse layer it does not count the layer's water)."""
+    rows = r["sel"].get(1) or []
+    if not rows:
+        diags.append("no selected-output row for the SYS cross-check (%s)" % op)
+        return
+    row = rows[-1]
+    pts = raw.parts(after_blocks, db, 1, None)
+    inv = {}
+    dl = False
+    for name, acc in pts.items():
+        if name.startswith("kinetics "):
+            continue
+        if name.startswith("surface-charge ") and any(e != "charge" for e in acc):
+            dl = True
+        for e, v in acc.items():
+            inv[e] = inv.get(e, 0.0) + v
+    for e in SYS_ELTS:
+        if dl and e in ("H", "O"):
+            continue
+        a, b = inv.get(e, 0.0), row.get("sys_" + e)
+        if not isinstance(b, float):
+            diags.append("SYS(%s) missing (%s)" % (e, op))
+        elif abs(a - b) > TOL * max(abs(a), abs(b)):
+            diags.append("SYS(%s)=%.12g but the dump inventory without kinetics is %.12g (%s)" % (e, b, a, op))
+
+
 def reactant_signature(blocks):
     kinds = []
     for k, short in (("EQUILIBRIUM_PHASES_RAW", "pp"), ("EXCHANGE_RAW", "ex"), ("SURFACE_RAW", "su"), ("GAS_PHASE_RAW", "ga"),
@@ -240,7 +275,7 @@ def run_history(s, init, mode, ops, judge_from=None):
         raise RuntimeError("initial simulation fails: %s" % r["err"][:300])
     blocks = raw.parse(r["dump"])
     dump_text = r["dump"]
-    present, kin = set(), None
+    present, kin = set(INIT_MODEL[init][0]), INIT_MODEL[init][1]
     problems, diags = [], []
     nrun = 1
     if judge_from is None:
@@ -265,6 +300,7 @@ def run_history(s, init, mode, ops, judge_from=None):
         after = raw.parse(r["dump"])
         dump_text = r["dump"]
         if i >= judge_from:
+            sys_crosscheck(op, r, after, db, diags)
             tag = "history: init=%s mode=%s ops=%s ; judged transition %d (%s)" % (init, mode, " ".join(ops), i + 1, op)
             inv0, inv1, exp, worst = judge(op, spec, blocks, after, db, problems, diags, tag)
             last = {"op": op, "worst_rel": worst, "before": inv0, "after": inv1, "expected": exp}
@@ -298,3 +334,119 @@ def run_case(case):
                          "inventory_before+additions": {e: float("%.12g" % v) for e, v in sorted(last["expected"].items())},
                          "inventory_after": {e: float("%.12g" % v) for e, v in sorted(last["after"].items())}}
     return out
+
+
+# ------------------------------------------------------------------------------------------------ exploration
+def explore_level(cases, ev, findings, pool, deadline, stats):
+    """Runs one BFS level.  Returns (complete, results in case order).  Candidates are confirmed by two replays in
+    brand-new driver processes before they are reported (rule R3)."""
+    cand = {}
+    results = []
+    complete = True
+    for res in pool.map(run_case, cases, 4, ordered=True):
+        results.append(res)
+        ev.traces += 1
+        ev.transitions += res["ops"]
+        if res.get("not_completed"):
+            ev.not_completed += 1
+            stats["not_completed"] += 1
+            if len(stats["nc_samples"]) < 4:
+                stats["nc_samples"].append({"case": res["case"], "error": res["err"]})
+        else:
+            stats["completed"] += 1
+            ev.state(res["key"])
+            ev.outcome(res["outcome"])
+            stats["worst"] = max(stats["worst"], res.get("worst", 0.0))
+            sig = res["sample"]["cell"]
+            stats["cells"][sig] = stats["cells"].get(sig, 0) + 1
+            if len(res["case"]["ops"]) >= 2 or res["case"]["init"] != "plain":
+                ev.sample(res["sample"], limit=4)
+        for d in res.get("diagnostics", ()):
+            ev.diag(d)
+            stats["diag"] += 1
+        for fp, what in res["problems"]:
+            cand.setdefault(fp, (res["case"], what, res.get("script", "")))
+        if deadline.passed():
+            complete = False
+            break
+    for fp in sorted(cand):
+        case, what, script = cand[fp]
+        ok = list(pool.map(core._confirm, [(run_case, case, fp)]))[0]
+        if ok:
+            findings.report(fp, what, core.case_text(case, script))
+        else:
+            ev.diag("unconfirmed candidate (did not reproduce twice in fresh processes): %s" % fp)
+    return complete, results
+
+
+def bfs(name, init, mode, ops, depth, ev, findings, pool, deadline, stats):
+    """Bound-major BFS: level k = every completed, distinct state of level k-1 extended by every op."""
+    frontier = [()]
+    for k in range(1, depth + 1):
+        cases = [{"init": init, "mode": mode, "ops": list(seq) + [op]} for seq in frontier for op in ops]
+        bname = "%s: init=%s mode=%s depth %d (%d histories over %d ops)" % (name, init, mode, k, len(cases), len(ops))
+        if deadline.passed():
+            ev.bound(bname, False, cases=len(cases))
+            return False
+        complete, results = explore_level(cases, ev, findings, pool, deadline, stats)
+        seen, nxt, dup = set(), [], 0
+        for res in results:
+            if res.get("not_completed"):
+                continue
+            if res["key"] in seen:
+                dup += 1
+                continue
+            seen.add(res["key"])
+            nxt.append(tuple(res["case"]["ops"]))
+        ev.bound(bname, complete, cases=len(cases), completed_histories=len(nxt) + dup, distinct_states=len(nxt), duplicates_pruned=dup)
+        if not complete:
+            return False
+        frontier = nxt
+    return True
+
+
+def run(tier):
+    ev = core.Evidence(PROP, tier)
+    findings = core.Findings(PROP)
+    ev.assumptions = [
+        "database/phreeqc.dat loads without error; phase formulas = first formula on the left of the PHASES reaction in the database text",
+        "dump convention: SOLUTION_RAW -total_h/-total_o hold all H and O of the solution (water, solutes, H(0), O(0)); H(0)/O(0) under -totals are not added again",
+        "dump convention: SOLUTION_RAW -totals are moles per valence state 'El(v)'; -cb is the charge of the aqueous species in eq",
+        "dump convention: a surface with -charge_component objects carries its net charge (surface + diffuse layer) in their -charge_balance; a -no_edl surface in its components' -charge_balance",
+        "manual: REACTION amounts are cumulative unless INCREMENTAL_REACTIONS true; the last amount is re-used when KINETICS defines more steps than REACTION",
+        "charge tolerance: 1e-6 x max(|net charge|, sum of the inventories of all elements other than H and O) (the statement gives no scale for charge)",
+        "a step is judged from the two dumps only; intermediate reaction steps of one simulation are not observable in the dump and are not judged",
+    ]
+    pool = core.Pool()
+    stats = {"completed": 0, "not_completed": 0, "worst": 0.0, "cells": {}, "nc_samples": [], "diag": 0}
+    allops = alphabet()
+    if tier == "quick":
+        dl = core.Deadline(150)
+        plan = [("full alphabet", "plain", m, allops, 2) for m in ("use", "cells")] + \
+               [("full alphabet", "full", m, allops, 2) for m in ("use", "cells")]
+    else:
+        dl = core.Deadline(1500)
+        plan = [("full alphabet", "plain", m, allops, 3) for m in ("use", "cells")] + \
+               [("full alphabet", "full", m, allops, 2) for m in ("use", "cells")] + \
+               [("attach ops", "plain", m, alphabet("attach"), 4) for m in ("use", "cells")]
+    for name, init, mode, ops, depth in plan:
+        bfs(name, init, mode, ops, depth, ev, findings, pool, dl, stats)
+    pool.close()
+    total = stats["completed"] + stats["not_completed"]
+    ev.extra["alphabet"] = {"ops": allops, "attach_sub_alphabet": alphabet("attach"), "inits": sorted(INIT), "modes": ["use (USE..SAVE)", "cells (RUN_CELLS)"]}
+    ev.extra["lattice_points"] = total
+    ev.extra["completed_runs"] = stats["completed"]
+    ev.extra["not_completed_runs"] = stats["not_completed"]
+    ev.extra["not_completed_samples"] = stats["nc_samples"]
+    ev.extra["worst_relative_residual_of_conserved_transitions"] = stats["worst"]
+    ev.extra["judged_transitions_by_cell_composition"] = dict(sorted(stats["cells"].items()))
+    ev.extra["sys_crosscheck_diagnostics"] = stats["diag"]
+    if total and stats["completed"] < 0.5 * total:
+        raise SystemExit("C02: only %d of %d histories completed - the check is broken" % (stats["completed"], total))
+    if total > 50 and len(ev.outcomes) < 20:
+        raise SystemExit("C02: %d histories but only %d distinct states - the check is vacuous" % (total, len(ev.outcomes)))
+    return core.finish(ev, findings)
+
+
+def replay(path):
+    return core.replay_main(PROP, path, run_case)
